@@ -1154,7 +1154,10 @@ func verifyGitObjectAndAttestations(ctx context.Context, policy *State, target s
 		return "", false, nil
 	}
 
-	if options.trustedVerifier != "" {
+	// A verifier that already accepted this object for another path can only be
+	// trusted when no global rule exists: global rules are evaluated below,
+	// after the verifiers, against the principals accepted for this path.
+	if options.trustedVerifier != "" && len(policy.globalRules) == 0 {
 		for _, verifier := range verifiers {
 			if verifier.verifyExhaustively {
 				// The exhaustive verifier is part of every path's verifiers
